@@ -8,7 +8,6 @@ use crate::engine::*;
 use crate::gen::FCfg;
 use crate::model::Net;
 use crate::sem::*;
-use crate::gen::RawF;
 use crate::scale::*;
 use proptest::prelude::*;
 use serde_json::Value;
@@ -16,25 +15,21 @@ use std::time::Duration;
 
 pub struct C01;
 
-/// A small case (decided by the explicit-state evaluator) or a mid-size one (7-14 variables, tens of
-/// parameter bits; decided by the reference symbolic evaluator).
-#[derive(Clone, Debug)]
-pub enum RawC01 {
-    Small(RawSem),
-    /// network, formula, spare variable sets, milliseconds granted to the reference evaluator
-    Mid(RawMid, RawF, u8, u64),
-}
-
 fn check(case: &SemCase, net: &Net, f: &F) -> Verdict {
     if f.has_wild_or_domain() || f.has_weak_until() || !f.is_closed() {
         return Verdict::Discard("outside-C01-domain");
     }
     let colours = sample_colours(net, 64);
+    let t0 = std::time::Instant::now();
     let want = &expected_many(net, std::slice::from_ref(f), &case.context, &colours)[0];
+    let t_oracle = t0.elapsed();
     let results = match run_plain("C01", net, case, &case.formulas[0]) {
         Ok(r) => r,
         Err(fl) => return Verdict::Fail(fl),
     };
+    if t0.elapsed().as_secs() >= 3 && std::env::var("VERIF_TRACE_SLOW").is_ok() {
+        eprintln!("slow small case: oracle {:?}, total {:?}, n={} colours={} :: {} :: {}", t_oracle, t0.elapsed(), net.n, colours.len(), case.formulas[0], case.aeon.replace('\n', " ; "));
+    }
     if let Err(fl) = compare_all("C01", net, case, &results, &colours, want) {
         return Verdict::Fail(fl);
     }
@@ -50,7 +45,7 @@ fn check(case: &SemCase, net: &Net, f: &F) -> Verdict {
 }
 
 impl Property for C01 {
-    type Raw = RawC01;
+    type Raw = WithMid<RawSem>;
     fn id(&self) -> &'static str {
         "C01"
     }
@@ -67,32 +62,23 @@ impl Property for C01 {
     fn cases(&self, tier: Tier) -> u32 {
         tier.pick(40_000, 1_500_000)
     }
-    fn strategy(&self, tier: Tier) -> BoxedStrategy<RawC01> {
-        prop_oneof![
-            99 => raw_sem(tier.pick(3, 4), 1..=1, 5, tier.pick(16, 24)).prop_map(RawC01::Small),
-            1 => (raw_mid(), crate::gen::raw_f_weighted(4, 12, 1), any::<u8>(), Just(tier.pick(600u64, 2500u64))).prop_map(|(n, f, k, ms)| RawC01::Mid(n, f, k, ms)),
-        ]
-        .boxed()
+    fn strategy(&self, tier: Tier) -> BoxedStrategy<WithMid<RawSem>> {
+        // ~1 % mid-size cases; the reference evaluator gets 0.6 s (quick) / 2.5 s (thorough) per case,
+        // beyond that the case is skipped and counted
+        with_mid(raw_sem(tier.pick(3, 4), 1..=1, 5, tier.pick(16, 24)), 99, 1, tier.pick(600, 2500))
     }
-    fn check_raw(&self, raw: &RawC01) -> Verdict {
+    fn check_raw(&self, raw: &WithMid<RawSem>) -> Verdict {
         match raw {
-            RawC01::Small(raw) => match resolve_sem(raw, FCfg::PLAIN) {
+            WithMid::Small(raw) => match resolve_sem(raw, FCfg::PLAIN) {
                 Err(r) => Verdict::Discard(r),
                 Ok((case, fs, net)) => check(&case, &net, &fs[0]),
             },
-            RawC01::Mid(net, f, k, ms) => match mid_case(net, f, *k) {
-                Err(r) => Verdict::Discard(r),
-                // the reference evaluator gets 0.6 s (quick) / 2.5 s (thorough) per case; beyond: skipped and counted
-                Ok(case) => check_scale("C01", &case, Duration::from_millis(*ms)),
-            },
+            WithMid::Mid(raw, ms) => check_mid("C01", raw, *ms, FCfg::PLAIN),
         }
     }
     fn replay(&self, case: &Value) -> Verdict {
-        if case.get("scale").is_some() {
-            return match serde_json::from_value::<ScaleCase>(case.clone()) {
-                Ok(c) => check_scale("C01", &c, Duration::from_secs(600)),
-                Err(_) => Verdict::Discard("unreadable-case"),
-            };
+        if let Some(v) = replay_scale("C01", case) {
+            return v;
         }
         replay_with(case, |case, net, fs| check(case, net, &fs[0]))
     }
@@ -103,6 +89,6 @@ impl Property for C01 {
         if tier == Tier::Thorough {
             models.extend(SCALE_MODELS_MORE);
         }
-        bundled_scale_stage("C01", &models, tier.pick(10, 60), seed, Duration::from_secs(tier.pick(5, 30)), stats)
+        bundled_scale_stage("C01", &models, tier.pick(10, 60), seed, Duration::from_secs(tier.pick(5, 30)), FCfg::PLAIN, 1, stats)
     }
 }
